@@ -227,7 +227,7 @@ void dec_run(dec_spec *s, const lzma_allocator *a, const uint8_t *in, size_t in_
 		if (wret == LZMA_OK) {
 			slice_plan wp = { .mode = SL_WHOLE, .final_action = abandon ? LZMA_RUN : LZMA_FINISH, .continue_informational = true };
 			if (s->kind == D_STREAM_MT && s->timeout) wp.timeout_coder = true;
-			if (abandon) { wp.mode = SL_RANDOM; wp.max_in = 600; wp.max_out = 600; wp.seed = wh; wp.out_limit = 1 + (size_t)((wh >> 32) % 20000); }
+			if (abandon) { wp.mode = SL_RANDOM; wp.max_in = 600; wp.max_out = 600; wp.seed = wh; wp.out_limit = 1 + (size_t)((wh >> 32) % 3000); }
 			vbuf wo = {0}; slice_result wr;
 			slicer_run(&strm, wi + s->skip, wn - s->skip, &wo, &wp, &wr);
 			vbuf_free(&wo);
